@@ -27,12 +27,28 @@ theorem luminaVerifyRange_ok' {H : HashFn} {p : NsProof} {root : NsHash} {l : Li
   | error e => simp [hv] at h
   | ok u => simpa [hv] using h
 
+/-- the byte strings hashed when one share-with-proof is checked: the leaf preimage and the inner nodes of the range-proof
+    verification -/
+def shareInputs (H : HashFn) (s : ShareWithProof) : List Bytes :=
+  leafInput s.ns s.share :: proofInputs H s.proof.ignoreMaxNs [hashLeaf H s.ns s.share] s.proof.siblings s.proof.start
+
+/-- the byte strings hashed by the per-share loop of `validate` for this proof -/
+def befpInputs (H : HashFn) (shares : List (Option ShareWithProof)) : List Bytes :=
+  shares.flatMap (fun o => match o with | some s => shareInputs H s | none => [])
+
+theorem shareInputs_mem {H : HashFn} {shares : List (Option ShareWithProof)} {s : ShareWithProof} (hs : some s ∈ shares)
+    {y : Bytes} (hy : y ∈ shareInputs H s) : y ∈ befpInputs H shares :=
+  List.mem_flatMap.mpr ⟨some s, hs, hy⟩
+
 /-- an accepted single-leaf range proof for the leaf `(ns, d)` at index `i` of an axis tree of a square: the square
-    has exactly that leaf there (idealised hash) -/
-theorem axis_leaf_bound_ns {H : HashFn} (hk : HashOK H) {e : Eds} {j : Nat} (hw : e.width = 2 ^ j)
+    has exactly that leaf there — assuming no collision among the inputs hashed for that axis tree (`axisInputs`), the
+    leaf preimage and the inputs hashed by the verification of the proof -/
+theorem axis_leaf_bound_ns {H : HashFn} {S : Bytes → Prop} (hk : HashOKOn H S) {e : Eds} {j : Nat} (hw : e.width = 2 ^ j)
     (hsz : ∀ sh ∈ e.shares, NS_SIZE ≤ sh.data.length) {ax : Axis} {index i : Nat} {root : NsHash}
     (hroot : e.axisRoot H ax index = .ok root) (hi : i < e.width)
     {ns d : Bytes} {proof : NsProof} (hns : ns.length = NS_SIZE) (hsib : ∀ p ∈ proof.siblings, p.WF)
+    (hA : ∀ y ∈ axisInputs H e ax index, S y) (hLf : S (leafInput ns d))
+    (hV : ∀ y ∈ proofInputs H proof.ignoreMaxNs [hashLeaf H ns d] proof.siblings proof.start, S y)
     (hv : verifyRange H proof root [d] ns = .ok ()) (hst : proof.start = i) :
     ∃ sh, e.share? (axisCoord ax index i).1 (axisCoord ax index i).2 = some sh ∧ sh.data = d ∧ sh.ns = ns := by
   obtain ⟨shares, hax, hcr, _⟩ := axisRoot_ok hroot
@@ -47,33 +63,31 @@ theorem axis_leaf_bound_ns {H : HashFn} (hk : HashOK H) {e : Eds} {j : Nat} (hw 
     injection hy2 with hy2
     rw [hy2]
     exact List.mem_of_getElem? hy1
-  have nsl : ∀ y ∈ shares, y.ns.length = NS_SIZE := by
-    intro y hy
-    have := hsz y (hmem y hy)
-    unfold Share.ns
-    split
-    · simp [parityNs, maxNsId]
-    · simp [List.length_take]; omega
-  have al : AllLeaf H (shares.map (Share.leafHash H)) := by
-    intro x hx
-    obtain ⟨y, hy, rfl⟩ := List.mem_map.mp hx
-    exact ⟨y.ns, y.data, nsl y hy, rfl⟩
-  have lx : IsLeaf H (hashLeaf H ns d) := ⟨_, _, hns, rfl⟩
+  have al : AllLeafOn H S (shares.map (Share.leafHash H)) :=
+    (axis_allLeafOn hax (fun sh hs => hsz sh (hmem sh hs))).mono hA
+  have lx : IsLeafOn H S (hashLeaf H ns d) := ⟨_, _, hns, rfl, hLf⟩
+  have hT : ∀ y ∈ rootInputs H true ((shares.map (Share.leafHash H)).length + 1) (shares.map (Share.leafHash H)), S y :=
+    fun y hy => hA y (axis_rootInputs_mem hax hy)
+  have hshmem : sh ∈ shares := List.mem_of_getElem? hshi
   unfold verifyRange at hv
   split at hv
   · cases hv
   · split at hv
     · cases hv
     · simp only [List.map_cons, List.map_nil] at hv
-      rw [hst] at hv
+      rw [hst] at hv hV
       have hL : (shares.map (Share.leafHash H)).length = 2 ^ j := by simp [hlen, hw]
       have hik : i < 2 ^ j := by omega
-      have := checkRangeProof_single_sound hk al hL hcr lx hsib hik hv
+      have := checkRangeProof_single_sound_on hk al hL hcr lx hsib hik hV hT hv
       rw [List.getElem?_map, hshi] at this
       simp only [Option.map_some, Option.some.injEq, Share.leafHash] at this
       have hnse : sh.ns = ns := congrArg NsHash.minNs this
       have hh : (hashLeaf H sh.ns sh.data).hash = (hashLeaf H ns d).hash := congrArg NsHash.hash this
-      exact ⟨(hashLeaf_inj hk (by rw [hnse]) hh).2, hnse⟩
+      have hSsh : S (leafInput sh.ns sh.data) := by
+        apply hA
+        unfold axisInputs; rw [hax]
+        exact List.mem_append_left _ (List.mem_map.mpr ⟨sh, hshmem, rfl⟩)
+      exact ⟨(hashLeaf_inj_on hk.inj (by rw [hnse]) hSsh hLf hh).2, hnse⟩
 
 /-- what the Rust types guarantee about a decoded proof: namespaces are 29 bytes, proof nodes 29+29+32 -/
 def BefpWF (p : Befp) : Prop :=
@@ -91,10 +105,12 @@ theorem rootAndLeafIdx_coord (dah : Dah) (axis : Axis) (index : Nat) (pa : Axis)
   · exact ⟨index, rfl, rfl, Or.inl rfl, Or.inr rfl⟩
 
 /-- **the per-share loop binds every present share to its cell of the committed square** -/
-theorem verifyShares_sound {H : HashFn} (hk : HashOK H) {ver : Nat} {X : List Bytes} {e : Eds} (hn : NewOK ver X e)
+theorem verifyShares_sound {H : HashFn} {S : Bytes → Prop} (hk : HashOKOn H S) {ver : Nat} {X : List Bytes} {e : Eds}
+    (hn : NewOK ver X e) (hE : ∀ y ∈ edsInputs H e, S y)
     {dah : Dah} (hd : Dah.ofEds H e = .ok dah) {axis : Axis} {index : Nat} (hidx : index < e.width) :
     ∀ (shares : List (Option ShareWithProof)) (i0 : Nat), i0 + shares.length ≤ e.width →
       (∀ s, some s ∈ shares → s.ns.length = NS_SIZE ∧ ∀ q ∈ s.proof.siblings, q.WF) →
+      (∀ y ∈ befpInputs H shares, S y) →
       verifyShares Flags.fixed H dah axis index shares i0 = .ok () →
       ∀ m s, shares[m]? = some (some s) →
         s.share = (cell e.width X (axisCoord axis index (i0 + m)).1 (axisCoord axis index (i0 + m)).2).data := by
@@ -109,16 +125,22 @@ theorem verifyShares_sound {H : HashFn} (hk : HashOK H) {ver : Nat} {X : List By
     rw [this]; decide
   intro shares
   induction shares with
-  | nil => intro i0 _ _ _ m s hm; simp at hm
+  | nil => intro i0 _ _ _ _ m s hm; simp at hm
   | cons o rest ih =>
-    intro i0 hlen hwf hv m s hm
+    intro i0 hlen hwf hP hv m s hm
+    have hPrest : ∀ y ∈ befpInputs H rest, S y := by
+      intro y hy
+      apply hP
+      unfold befpInputs at hy ⊢
+      rw [List.flatMap_cons]
+      exact List.mem_append_right _ hy
     cases o with
     | none =>
       simp only [verifyShares] at hv
       cases m with
       | zero => simp at hm
       | succ m' =>
-        have := ih (i0 + 1) (by simp at hlen; omega) (fun s hs => hwf s (List.mem_cons_of_mem _ hs)) hv m' s
+        have := ih (i0 + 1) (by simp at hlen; omega) (fun s hs => hwf s (List.mem_cons_of_mem _ hs)) hPrest hv m' s
           (by simpa using hm)
         have e1 : i0 + (m' + 1) = i0 + 1 + m' := by omega
         rw [e1]; exact this
@@ -147,7 +169,7 @@ theorem verifyShares_sound {H : HashFn} (hk : HashOK H) {ver : Nat} {X : List By
               simp only [hvr] at hv
               cases m with
               | succ m' =>
-                have := ih (i0 + 1) (by simp at hlen; omega) (fun s hs => hwf s (List.mem_cons_of_mem _ hs)) hv m' s
+                have := ih (i0 + 1) (by simp at hlen; omega) (fun s hs => hwf s (List.mem_cons_of_mem _ hs)) hPrest hv m' s
                   (by simpa using hm)
                 have e1 : i0 + (m' + 1) = i0 + 1 + m' := by omega
                 rw [e1]; exact this
@@ -170,7 +192,11 @@ theorem verifyShares_sound {H : HashFn} (hk : HashOK H) {ver : Nat} {X : List By
                     simp only [Dah.root?, Dah.colRoot?] at ht1
                     rw [hr2] at ht1; injection ht1 with ht1; rw [ht1]; exact hr1
                 obtain ⟨hnsl, hsib⟩ := hwf s0 (by simp)
+                have hS0 : ∀ y ∈ shareInputs H s0, S y := fun y hy => hP y (shareInputs_mem (by simp) hy)
                 obtain ⟨sh, hsh, hdata, _⟩ := axis_leaf_bound_ns hk hj hsz hroot hlw hnsl hsib
+                  (fun y hy => hE y (axisInputs_mem_eds htw hy))
+                  (hS0 _ (by simp [shareInputs]))
+                  (fun y hy => hS0 y (by simp [shareInputs, hy]))
                   (luminaVerifyRange_ok' hvr) hst
                 rw [ht2] at hsh
                 have hr := (axisCoord axis index i0)
